@@ -129,13 +129,6 @@ theorem gatherSymbols_unique (file : Nat) (ns : List Node) (sy sy' : Symbols)
 /-- what the verifier establishes for one struct relative to a size table: distinct field
     names, every field at an offset divisible by its alignment (offset = sum of the sizes of
     the fields before it: no padding), total size divisible by the largest alignment -/
-def fieldSA (store : SizeStore) (f : Field) : Option (Nat × Nat) :=
-  match f.ty with
-  | .prim p => some (p.size, p.align)
-  | .custom c => store.get c
-  | .iface => some (ifaceSize, ifaceAlign)
-  | .buffer => none
-
 inductive FieldsAligned (store : SizeStore) : List Field → Nat → Nat → List Nat → Nat → Nat → Prop
   | nil (size al seen) : FieldsAligned store [] size al seen size al
   | cons (f fs size al seen isz ial size' al') :
@@ -153,16 +146,14 @@ theorem verifyFields_sound (store : SizeStore) (fs : List Field) (size al : Nat)
     split at h
     · simp at h
     · rename_i hseen
-      simp only at h
       split at h
       · simp at h
       · rename_i isz ial hsa
         split at h
         · simp at h
         · rename_i hmod
-          refine .cons f fs size al seen isz ial size' al' ?_ ?_ ?_ (ih _ _ _ h)
+          refine .cons f fs size al seen isz ial size' al' ?_ hsa ?_ (ih _ _ _ h)
           · intro hm; exact hseen (List.contains_iff_mem.2 hm)
-          · simp only [fieldSA]; cases hty : f.ty <;> simp_all
           · simpa using hmod
 
 /-- **(alignment)** every struct the verifier walked satisfies the no-padding rule relative
